@@ -1,4 +1,3 @@
-struct s {
-	int x;
-	static_assert(1, "");
-};
+struct {
+	int x : 1, y, z : 1;
+} s = {.z = 1};
